@@ -87,6 +87,26 @@ def run(ctx):
             ctx.traces += res["evaluations"]
             for s in res["samples"][:2]:
                 ctx.sample(s)
+    # handlers registered with AddHandler: queue + forwarding goroutine + consumer (Forwarder.tla)
+    ctx.design_check("Forwarder", "MCForwarder.cfg", workers=2, timeout=600)
+    r = ctx.tlc("Forwarder", "MCForwarder_dev.cfg", workers=1, count=False, expect_ok=False, timeout=600)
+    if "<temporal>" not in r.violated:
+        raise Infra("Forwarder with Dev_StopOnConsumerError should violate EverythingConsumed (vacuity guard)")
+    ctx.model_only.append("Dev_StopOnConsumerError: a forwarding goroutine that stops at the first consumer error leaves accepted "
+                          "messages in the queue for ever (EverythingConsumed violated)")
+    g = ctx.tlc("GenForwarder", "GenForwarder.cfg", workers=1, count=False, timeout=600)
+    ws = g.printed("W")
+    if len(ws) < 16:
+        raise Infra("GenForwarder exported %d tests" % len(ws))
+    fp = ctx.path("forward.tests.ndjson")
+    with open(fp, "w") as f:
+        for w in ws:
+            f.write(json.dumps(w) + "\n")
+    fres = c17.run_harness(ctx, ["forward", fp], "forward")
+    if fres is not None:
+        ctx.failures(fres["failures"])
+        ctx.traces += fres["evaluations"]
+        ctx.extra["forwarder_tests"] = fres["evaluations"]
     ctx.extra["explanation"] = ("exhaustive TLC check of the interleaving model of concurrent senders; recorded executions over "
                                 "every transport and of the dispatcher validated by TLC against the trace specifications")
     ctx.assumptions += ["the stream serialises concurrent Write calls (true of net.Conn, os.File pipes and tls.Conn); the wrapper's own lock only makes that order observable",
